@@ -393,6 +393,9 @@ func c08Run(c *Ctx) {
 		if hostile == nil && cs.Kind != "extreme" && !(cs.Kind == "prefix" && cs.A == 0) {
 			return
 		}
+		if c.Resume > 0 && c.SkipSig(strings.SplitN(c08Sig("x", cs, nil), "|", 2)[1]) {
+			return
+		}
 		c.Begin(idx, cs)
 		cl, detail := c08Eval(cs, hostile)
 		c.Res.Evaluations++
